@@ -1,0 +1,96 @@
+//! Read-only collector snapshot for external verification harnesses.
+//!
+//! Only compiled with `--cfg gc_arena_verif`. Nothing here mutates collector state.
+
+use alloc::vec::Vec;
+
+use super::{Mutation, Phase};
+use crate::{gc_ptr::GcPtr, types::GcColor};
+
+#[derive(Debug, Copy, Clone, Eq, PartialEq, Hash)]
+pub enum VerifPhase {
+    Mark,
+    Sweep,
+    Sleep,
+    Drop,
+}
+
+#[derive(Debug, Copy, Clone, Eq, PartialEq, Hash)]
+pub enum VerifColor {
+    White,
+    WhiteWeak,
+    Gray,
+    Black,
+}
+
+#[derive(Debug, Copy, Clone, Eq, PartialEq, Hash)]
+pub struct VerifObject {
+    /// Address of the value (what `Gc::as_ptr` returns, as an integer).
+    pub addr: usize,
+    pub color: VerifColor,
+    pub live: bool,
+    pub needs_trace: bool,
+}
+
+#[derive(Debug, Clone, Eq, PartialEq, Hash)]
+pub struct VerifSnapshot {
+    pub phase: VerifPhase,
+    pub root_needs_trace: bool,
+    /// Every allocation in `all`-list order (most recently linked first).
+    pub all: Vec<VerifObject>,
+    /// Address of the next object the sweeper will visit, if any.
+    pub sweep: Option<usize>,
+    pub sweep_prev: Option<usize>,
+    pub gray: Vec<usize>,
+    pub gray_again: Vec<usize>,
+}
+
+fn addr(p: GcPtr) -> usize {
+    p.as_ptr() as usize
+}
+
+impl<'gc> Mutation<'gc> {
+    /// Walks the collector's private state and returns a copy of it.
+    pub fn verif_snapshot(&self) -> VerifSnapshot {
+        let cx = &self.context;
+        let mut all = Vec::new();
+        let mut cur = cx.all.get();
+        while let Some(p) = cur {
+            let h = p.header();
+            all.push(VerifObject {
+                addr: addr(p),
+                color: match h.color() {
+                    GcColor::White => VerifColor::White,
+                    GcColor::WhiteWeak => VerifColor::WhiteWeak,
+                    GcColor::Gray => VerifColor::Gray,
+                    GcColor::Black => VerifColor::Black,
+                },
+                live: h.is_live(),
+                needs_trace: h.needs_trace(),
+            });
+            cur = h.next();
+        }
+        // SAFETY: `Queue` never hands out references and we are single threaded; we only read.
+        let gray = unsafe { (*cx.gray.vec.get().cast_const()).iter().map(|p| addr(*p)).collect() };
+        let gray_again = unsafe {
+            (*cx.gray_again.vec.get().cast_const())
+                .iter()
+                .map(|p| addr(*p))
+                .collect()
+        };
+        VerifSnapshot {
+            phase: match cx.phase {
+                Phase::Mark => VerifPhase::Mark,
+                Phase::Sweep => VerifPhase::Sweep,
+                Phase::Sleep => VerifPhase::Sleep,
+                Phase::Drop => VerifPhase::Drop,
+            },
+            root_needs_trace: cx.root_needs_trace,
+            all,
+            sweep: cx.sweep.map(addr),
+            sweep_prev: cx.sweep_prev.get().map(addr),
+            gray,
+            gray_again,
+        }
+    }
+}
